@@ -1,7 +1,7 @@
 """C07 — serde serialization never loses data (decided part: outcome tables, no swallowed
 errors except the guarded None-field case, promotion only outside values, container typing,
 Option / variant shapes mirrored by the deserializer)."""
-from .core import run_property, AnalysisIncomplete, walk, peel, last_seg, calls_in, callee_all, strip_generics
+from .core import run_property, AnalysisIncomplete, walk, peel, last_seg, calls_in, callee_all, strip_generics, children
 from . import serdemodel as sm
 
 PROP = 'C07'
@@ -280,6 +280,69 @@ def r6_option_mirror(rep, facts):
         rep.check(R, f'{d}|single-entry', len(ins) == 1 and keyed, 'one insert keyed by the variant name', f'`{d}` builds the variant table with {len(ins)} inserts (keyed by variant: {keyed})', facts.loc(b))
 
 
+VARIANT_METHODS = ('serialize_unit_variant', 'serialize_newtype_variant', 'serialize_tuple_variant', 'serialize_struct_variant')
+
+
+def _doc_array_refused(facts):
+    """backing of the one reviewed exception: what `toml::ser::Serializer::serialize_tuple_variant` collects is an array, and the finishing step of the
+    document serializer refuses an array — decided by evaluating write_document on Ok(Value::Array(..))"""
+    from .den import RecInterp, Evaluator, EvalPanic, Unanalysable
+    ends = [d for d in facts.bodies if d.endswith('::end') and 'SerializeDocumentArray' in d and 'SerializeTupleVariant' in d]
+    if len(ends) != 1 or not facts.has_body('toml::ser::internal::write_document'):
+        return False, 'SerializeDocumentArray::end / write_document not found'
+    calls = [last_seg(c) for n in calls_in(facts.body(ends[0])['body']) for c in callee_all(n)[:1]]
+    if 'write_document' not in calls:
+        return False, f'`{ends[0]}` no longer finishes through write_document (calls {calls})'
+    b = facts.body('toml::ser::internal::write_document')
+    v = ('ctor', 'core::result::Result::Ok', (('ctor', 'toml_edit::value::Value::Array', (('opaque',),)),))
+    it = RecInterp(Evaluator(facts), {'visit_table_mut', 'write_str', 'write_fmt', 'fmt', 'from', 'into'}, stubs={})
+    try:
+        r = it.apply_fn(b, [('opaque',), ('opaque',), v])
+    except (EvalPanic, Unanalysable) as ex:
+        return False, f'cannot evaluate write_document on an array: {ex}'
+    if isinstance(r, tuple) and r[:2] == ('ctor', 'core::result::Result::Err'):
+        return True, 'write_document(Ok(Value::Array)) evaluates to Err'
+    return False, f'write_document accepts an array ({r!r:.80})'
+
+
+TAGLESS_OK = {
+    # (impl, method): (reason, backing check)
+    ("toml::ser::Serializer<'d>", 'serialize_tuple_variant'): ('an array cannot be a document: whatever is collected, the finishing step returns UnsupportedType', _doc_array_refused),
+}
+
+
+def r12_variant_tag(rep, facts):
+    R = rep.rule('C07/R12', 'the variant name is part of what is written: every Ok-capable serialize_*_variant of a workspace Serializer impl hands its `variant` '
+                 'parameter on (to the inner serializer, the variant collector or the string written); a method that ignores it writes the payload alone, '
+                 'which reads back as another shape. The reviewed exception (the document serializer, where the collected array is refused at the end) is re-decided by evaluation', floor=14)
+    impls = sm.ser_impls(facts)
+    table = sm.outcome_table(facts)
+    for ty in sorted(impls):
+        for m in VARIANT_METHODS:
+            d = impls[ty].get(m)
+            if not d or not facts.has_body(d) or table[ty][m] != 'ok':
+                continue
+            b = facts.body(d)
+            ps = b.get('params', [])
+            p = ps[3] if len(ps) > 3 else {}
+            nm = p.get('name') if p.get('k') == 'p_bind' else None
+            sinks = []
+            if nm:
+                for n in walk(b['body']):
+                    if n.get('k') in ('call', 'mcall', 'struct') and any(x.get('k') == 'path' and x.get('res') == 'Local' and x.get('path') == nm for c in children(n) for x in walk(c)):
+                        sinks.append(n.get('name') or last_seg(peel(n.get('f', {})).get('path') or '') or 'struct literal')
+            if sinks:
+                rep.ok(R, f'{ty}|{m}', f'variant -> {sorted(set(sinks))[0]}')
+                continue
+            if (ty, m) in TAGLESS_OK:
+                reason, back = TAGLESS_OK[(ty, m)]
+                ok, detail = back(facts)
+                rep.check(R, f'{ty}|{m}', ok, f'reviewed: {reason} ({detail})', f'`{ty}::{m}` ignores the variant name and the reason it was accepted for no longer holds: {detail}', facts.loc(b))
+                continue
+            rep.bad(R, f'{ty}|{m}', f'`{ty}::{m}` can succeed but never uses its `variant` parameter: the variant name is dropped and the payload is written alone '
+                    f'(e.g. Shape::Rect(3, 4) as [3, 4]), which does not read back as the enum', facts.loc(b))
+
+
 def rules(rep, facts):
     feats = set(facts.crates.get('toml_edit', {}).get('features', []))
     if 'toml_edit' not in facts.crates or 'serde' not in feats:
@@ -294,6 +357,7 @@ def rules(rep, facts):
     r3b_empty_tables(rep, facts)
     r4_container_typing(rep, facts)
     r6_option_mirror(rep, facts)
+    r12_variant_tag(rep, facts)
     if 'toml' in facts.crates:
         from .rules_c13 import r7_value_passes
         r7_value_passes(rep, facts, rid='C07/R9')
